@@ -383,3 +383,91 @@ def _is_none_test(c, subject):
     if c[0] == "cmp" and c[1] in ("is", "isnot", "==", "!=") and strip_typed(c[2]) == subject and strip_typed(c[3]) == ("const", None):
         return c[1] in ("is", "==")
     return None
+
+
+def _peel(t, names=("to", "contiguous")):
+    """Strip device/layout no-ops: x.to(...), x.contiguous()."""
+    t = strip_typed(t)
+    while t[0] == "mcall" and t[2] in names:
+        t = strip_typed(t[1])
+    return t
+
+
+def gauge_moves(ctx) -> None:
+    """The QR steps that move the orthogonality centre (MPS.orthogonalize, and the walks of MPS.expect_batch):
+      right move:  F (l·p, r) = Q R        → next ← R · next          (tensordot(r, next, dims=1))
+      left move:   F (l, p·r)ᵀ = Q R       → prev ← prev · Rᵀ         (tensordot(prev, r, ([2], [1])));   Q stored as Qᵀ
+    The transposition applied before the QR, the one applied to Q, and the index of R that is contracted must agree;
+    with a conjugate transpose (`.mH`) the contracted factor has to be conj(R).  For complex states a mismatch leaves
+    the bond basis conjugated: expectation values left of the centre are wrong although norms stay plausible."""
+    prog = ctx.prog
+    M = prog.cls("emu_mps.mps.MPS")
+    it = Interp(prog, M, inline=lambda c, r, d: False, loop_iters=(1,))
+    n_sites = 0
+    for fname in ("orthogonalize", "expect_batch"):
+        f = M.methods[fname]
+        seen = {}
+        for p in it.run(f):
+            if p.status != "return":
+                continue
+            for e in p.events:
+                if not (e.kind == "call" and e.name == "torch.linalg.qr" and e.pos):
+                    continue
+                key = (e.node.lineno, e.node.col_offset)
+                x = _peel(e.pos[0])
+                trans = None
+                if x[0] == "attr" and x[2] in ("mT", "mH", "T", "H"):
+                    trans, x = x[2], _peel(x[1])
+                kind = None
+                if x[0] == "mcall" and x[2] == "view" and len(x[3]) == 2:
+                    a, b = strip_typed(x[3][0]), strip_typed(x[3][1])
+                    shp = lambda t, k: t[0] == "sub" and strip_typed(t[1])[0] == "attr" and strip_typed(t[1])[2] == "shape" and is_const(t[2], k)  # noqa: E731
+                    if is_const(a, -1) and shp(b, 2) and trans is None:
+                        kind = "right"
+                    elif shp(a, 0) and is_const(b, -1) and trans in ("mT", "mH"):
+                        kind = "left"
+                if kind is None:
+                    raise AnalysisError(f"GAUGE: unrecognised QR idiom at {e.loc()}: {show(e.pos[0])[:100]}")
+                r_term = ("unpack", strip_typed(e.result), 1, 2)
+                q_term = ("unpack", strip_typed(e.result), 0, 2)
+                uses = []
+                for d in p.events[p.events.index(e) + 1:]:
+                    if d.kind == "call" and d.name == "torch.tensordot" and len(d.pos) >= 2:
+                        for i in (0, 1):
+                            a = _peel(d.pos[i])
+                            conj = False
+                            if a[0] == "mcall" and a[2] in ("conj", "conj_physical"):
+                                conj, a = True, _peel(a[1])
+                            if a == r_term:
+                                dims = strip_typed(d.pos[2]) if len(d.pos) > 2 else strip_typed(dict(d.kw).get("dims", ("const", None)))
+                                uses.append((i, conj, show(dims).replace(" ", ""), d))
+                ok = len(uses) == 1
+                why = f"R of the QR at line {e.node.lineno} is contracted {len(uses)} time(s)"
+                if ok:
+                    i, conj, dims, d = uses[0]
+                    if kind == "right":
+                        ok = i == 0 and not conj and dims in ("1", "([1],[0])")
+                        why = f"right move: next ← tensordot(R, next, {dims}) with R as argument {i + 1}" + (" conjugated" if conj else "")
+                    else:
+                        ok = i == 1 and dims == "([2],[1])" and conj == (trans == "mH")
+                        why = (f"left move through .{trans}: prev ← tensordot(prev, {'conj(R)' if conj else 'R'}, {dims})"
+                               + ("" if ok else f" — with .{trans} the contracted factor must be {'conj(R)' if trans == 'mH' else 'R'} on index 1"))
+                # the Q that is written back (orthogonalize only)
+                okq = True
+                for s in p.events[p.events.index(e) + 1:]:
+                    if s.kind == "setitem" and contains(s.value, lambda t: t == q_term):
+                        v = _peel(s.value)
+                        if v[0] == "mcall" and v[2] == "view":
+                            qq = _peel(v[1])
+                            qt = qq[2] if qq[0] == "attr" and qq[2] in ("mT", "mH", "T", "H") else None
+                            okq = (qt == trans) if kind == "left" else (qt is None)
+                        break
+                prev = seen.get(key)
+                seen[key] = (ok and okq and (prev[0] if prev else True), why + ("" if okq else "; the stored Q uses another transposition"), e)
+        ctx.require(len(seen) == 2, f"GAUGE: {len(seen)} QR sites in MPS.{fname}, 2 confirmed by hand")
+        for key, (ok, why, e) in sorted(seen.items()):
+            n_sites += 1
+            ctx.ob("GAUGE", f"MPS.{fname}|QR #{sorted(seen).index(key) + 1}", e.loc(), ok,
+                   why if ok else f"MPS.{fname}: {why}: the centre move does not reproduce the state (for complex amplitudes the "
+                                  f"bond basis comes out conjugated), so quantities read off the moved centre are wrong")
+    ctx.require(n_sites == 4, f"GAUGE: {n_sites} QR sites checked")
